@@ -19,15 +19,15 @@ import (
 // intermediate message of a multi-part name, appended the leading elements of an array literal)
 // must not survive. The code can guarantee this in two ways, and the rule accepts either:
 //
-//   A (rollback)     on every acyclic path of interpretOptions that passes the interpretField call
-//                    and then the true edge of `interp.lenientErrReported`, the message M that was
-//                    passed to the call is re-assigned from a snapshot S = proto.Clone(M…) taken
-//                    before the call on that path, before the loop iterates or the function exits.
-//                    Paths on which `interp.lenient` was false are pruned at that edge: RH8
-//                    establishes lenientErrReported ⇒ lenienceEnabled ⇒ lenient.
-//   B (mutate-last)  in interpretField and setOptionField no lenience-fallible call (a call that
-//                    can reach one of the error wrappers) may follow a mutation of the msg
-//                    parameter on any path, so a failure always precedes the first mutation.
+//	A (rollback)     on every acyclic path of interpretOptions that passes the interpretField call
+//	                 and then the true edge of `interp.lenientErrReported`, the message M that was
+//	                 passed to the call is re-assigned from a snapshot S = proto.Clone(M…) taken
+//	                 before the call on that path, before the loop iterates or the function exits.
+//	                 Paths on which `interp.lenient` was false are pruned at that edge: RH8
+//	                 establishes lenientErrReported ⇒ lenienceEnabled ⇒ lenient.
+//	B (mutate-last)  in interpretField and setOptionField no lenience-fallible call (a call that
+//	                 can reach one of the error wrappers) may follow a mutation of the msg
+//	                 parameter on any path, so a failure always precedes the first mutation.
 func rc7cPerOptionAtomicity(w *World) {
 	w.rule("RC7c")
 	p := w.pkg("options")
